@@ -181,6 +181,19 @@ func thesaurusQueries(c *ctx, seg segment.Segment, spec sx.V) (bad string) {
 			c.Count("recycled_lookups")
 		}
 	}
+	// names of ordinary fields (and of _id) that define no thesaurus yield empty results too
+	isThes := map[string]bool{}
+	for _, t := range spec.L[pThes].L {
+		isThes[string(t.L[0].B)] = true
+	}
+	for _, f := range spec.L[pFields].L {
+		if name := string(f.B); !isThes[name] {
+			got, err := zh.DumpThesaurus(ts, name, nil)
+			if err != nil || len(got.Terms) != 0 {
+				return fmt.Sprintf("field %q defines no thesaurus but Thesaurus(%q) lists %d terms (err %v)", name, name, len(got.Terms), err)
+			}
+		}
+	}
 	got, err := zh.DumpThesaurus(ts, "no-such-thesaurus", nil)
 	if err != nil || len(got.Terms) != 0 {
 		return fmt.Sprintf("unknown thesaurus lists %d terms (err %v)", len(got.Terms), err)
